@@ -3,6 +3,7 @@ import OpusModel.Gen.Window
 import OpusProofs.Delay
 import OpusProofs.MdctTdac
 import OpusProofs.MdctWindow
+import OpusProofs.DelayChannels
 /-
   C04 — "Encode then decode reproduces the input at the reported delay".
 
@@ -11,6 +12,9 @@ import OpusProofs.MdctWindow
       accepted (Fs, channels, application), over every history of set-application / encode / reset operations;
       it is exactly 2.5 ms / 6.5 ms at every API rate; it decomposes into the CELT overlap at the API rate plus the
       encoder's delay buffer; the model reproduces the struct fields and ctl answers regenerated from the code;
+    * the *channel identity* clause at the multistream routing layer: the channel the encoder feeds into a stream
+      side and the channel the decoder writes that stream side to are the same channel (no swap), for every layout,
+      and for every channel of the surround layouts (regenerated Vorbis table);
     * the *exact mathematics* underneath "the output matches the input" for the CELT transform layer: the
       regenerated window is power-complementary to 2⁻²³, and MDCT → IMDCT → windowed overlap-add of consecutive
       blocks returns the input (time-domain alias cancellation), exactly for a Princen–Bradley window and to
@@ -26,7 +30,7 @@ import OpusProofs.MdctWindow
       SNR(y[· + d], x) ≥ snr_min(c) ∧ ∀ band b, |E_b(y) − E_b(x)| ≤ tol_b(c) ∧ channels keep identity, sign, level.
 -/
 namespace OpusProps.C04
-open Opus Opus.Delay Opus.MdctR Opus.MdctWindow Opus.Gen.Window
+open Opus Opus.Delay Opus.MdctR Opus.MdctWindow Opus.Gen.Window Opus.Layout Opus.DelayChannels
 
 /-- Clause "delayed by exactly the lookahead the encoder reports" — the report itself: on any successfully
     created encoder OPUS_GET_LOOKAHEAD answers `Fs/400 + (0 if RESTRICTED_LOWDELAY else Fs/250)`,
@@ -153,5 +157,47 @@ theorem celt_window_tdac (M : ℕ) (hov : overlap ≤ M) (hpar : 2 ∣ (M - over
   celt_tdac M hov hpar x t n hn
 
 example : ∀ M ∈ [120, 240, 480, 960], overlap ≤ M ∧ 2 ∣ (M - overlap) := by decide
+
+/-- Clause "channels keep their identity (left stays left, no swap)", multistream routing layer, decoder after
+    encoder: output channel `c` is written (C10 `routing`: from `expectedSrc l c`) with the stream side that the
+    encoder filled from input channel `c` itself (`get_left/right/mono_channel(layout, s, -1)`,
+    src/opus_multistream_encoder.c:942-943, 961) — for every layout and every channel whose mapping byte is not
+    255 (muted) and is not a repetition of an earlier channel's byte (a repeated byte is a *copy* of that earlier
+    channel by RFC 7845 §5.1.1, so identity cannot hold for it). -/
+theorem channel_identity (l : ChannelLayout) (c v : Nat) (hc : c < l.nbChannels)
+    (hv : l.mapping[c]? = some v) (h255 : v ≠ 255) (hfirst : ∀ j, j < c → l.mapping[j]? ≠ some v) :
+    encoderInput l (expectedSrc l c) = (c : Int) :=
+  encoderInput_expectedSrc l c v hc hv h255 hfirst
+
+/-- Non-vacuity: 5.1 (Vorbis order FL C FR RL RR LFE, mapping 0 4 1 2 3 5, 4 streams, 2 coupled): output FR (channel 2)
+    is the right side of stream 0, which the encoder fills from input channel 2. -/
+example : expectedSrc ⟨6, 4, 2, [0, 4, 1, 2, 3, 5]⟩ 2 = .right 0 ∧
+    encoderInput ⟨6, 4, 2, [0, 4, 1, 2, 3, 5]⟩ (.right 0) = 2 := by decide
+
+/-- The same clause, encoder after decoder: whichever channel `c` the encoder takes a stream side from, the decoder
+    writes that very stream side to channel `c` — for every stream side of every layout that satisfies the size
+    conditions both validators enforce (`coupled ≤ streams`, `streams + coupled ≤ 255`).  So no stream side can come
+    back on a different channel than it was taken from. -/
+theorem stream_side_identity (l : ChannelLayout) (src : Src) (hs : IsStreamSide l src)
+    (hcs : l.nbCoupled ≤ l.nbStreams) (h255 : l.nbStreams + l.nbCoupled ≤ 255)
+    (c : Int) (hc : encoderInput l src = c) (hne : c ≠ -1) :
+    0 ≤ c ∧ c.toNat < l.nbChannels ∧ expectedSrc l c.toNat = src :=
+  expectedSrc_encoderInput l src hs hcs h255 c hc hne
+
+example : IsStreamSide ⟨6, 4, 2, [0, 4, 1, 2, 3, 5]⟩ (.mono 3) ∧
+    encoderInput ⟨6, 4, 2, [0, 4, 1, 2, 3, 5]⟩ (.mono 3) = 5 := ⟨⟨by decide, by decide⟩, by decide⟩
+
+/-- For the layouts `opus_multistream_surround_encoder_create` builds — family 0 (mono, stereo), family 1 (all eight
+    Vorbis layouts, table regenerated from src/opus_multistream_encoder.c) and family 255 (every channel count up to
+    255) — *every* channel is routed back to itself. -/
+theorem surround_channel_identity :
+    ((∀ ch ∈ [1, 2], surroundIdentity ch 0 = true) ∧
+     (∀ ch ∈ [1, 2, 3, 4, 5, 6, 7, 8], surroundIdentity ch 1 = true) ∧
+     (∀ ch ∈ [1, 2, 3, 5, 8, 16, 32], surroundIdentity ch 255 = true)) ∧
+    (∀ ch c : Nat, ch ≤ 255 → c < ch →
+      encoderInput ⟨ch, ch, 0, List.range ch⟩ (expectedSrc ⟨ch, ch, 0, List.range ch⟩ c) = (c : Int)) :=
+  ⟨surround_identity, fun ch c hch hc => family255_identity ch c hch hc⟩
+
+example : surroundLayout 6 1 = .ok ⟨4, 2, [0, 4, 1, 2, 3, 5], 3⟩ := by decide
 
 end OpusProps.C04
